@@ -193,3 +193,21 @@ package fpgo
 //@ func (noneDef).ToMaybe
 //@   prop C01
 //@   ensures def: isa(r0, noneDef)
+
+// Let: the callback runs exactly once when a value is present and not at all when it is absent (event trace)
+//@ func (someDef).Let
+//@   prop C01
+//@   opt callbacks=effectful
+//@   opt effects=trace
+//@   requires MB_WF(maybeSelf) && fn != nil
+//@   ensures absent-never: absent(maybeSelf.ref) ==> tr_len == old(tr_len)
+//@   ensures present-once: !absent(maybeSelf.ref) ==> tr_len == old(tr_len)+1 && tr_kind[old(tr_len)] == 1 && tr_fn[old(tr_len)] == fn
+//@ func (noneDef).Let
+//@   prop C01
+//@   opt callbacks=effectful
+//@   opt effects=trace
+//@   ensures never: tr_len == old(tr_len)
+//@ func (someDef).IsType
+//@   prop C01
+//@   requires MB_WF(maybeSelf)
+//@   ensures def: r0 == (ite(absent(maybeSelf.ref), 0, rtype(maybeSelf.ref)) == t)
